@@ -7,7 +7,7 @@
 ID=$1; WT=${2:-/tmp/wt/$ID}; NAME=${3:-$ID}; OUT=/verif/seeded/$NAME; mkdir -p $OUT
 if [ -n "$RECHECK" ]; then
 cd /verif
-git -C /repo apply $OUT/patch.diff || { echo "patch does not apply to /repo"; exit 9; }
+git -C /repo apply $OUT/${PATCH:-patch.diff} || { echo "patch does not apply to /repo"; exit 9; }
 T0=$(date +%s)
 ./check $ID > $OUT/check_quick.log 2>&1; RC=$?
 T1=$(date +%s)
@@ -20,7 +20,7 @@ m=json.load(open("$OUT/meta.json"))
 h=m.setdefault("history",[])
 if not h: h.append({"verif_commit":m.get("verif_commit","(earlier harness version)"),"check_exit":m["check_exit"],"check_seconds":m["check_seconds"]})
 c=subprocess.run(["git","-C","/verif","rev-parse","--short","HEAD"],capture_output=True,text=True).stdout.strip()
-h.append({"verif_commit":c,"check_exit":$RC,"check_seconds":$((T1-T0))})
+h.append({"verif_commit":c,"check_exit":$RC,"check_seconds":$((T1-T0)),"patch":"${PATCH:-patch.diff}"})
 m["check_exit"]=$RC; m["check_seconds"]=$((T1-T0)); m["verif_commit"]=c
 json.dump(m,open("$OUT/meta.json","w"),indent=1)
 PY
